@@ -31,10 +31,21 @@ pub(crate) fn choose_fresh_global_variables(program: &asp::Program) -> Vec<Strin
     }
     let mut globals = Vec::<String>::new();
     for i in 1..max_arity + 1 {
-        let mut v: String = "V".to_owned();
-        let counter: &str = &(max_taken_var + i).to_string();
-        v.push_str(counter);
-        globals.push(v);
+        match max_taken_var.checked_add(i) {
+            Some(counter) => globals.push(format!("V{counter}")),
+            // The index of a program variable is so close to usize::MAX that counting on would overflow:
+            // fall back to the smallest unused index
+            None => {
+                let fresh = (1..)
+                    .map(|n: usize| format!("V{n}"))
+                    .find(|v| {
+                        !globals.contains(v)
+                            && !program.variables().contains(&asp::Variable(v.clone()))
+                    })
+                    .unwrap();
+                globals.push(fresh);
+            }
+        }
     }
     globals
 }
